@@ -150,7 +150,15 @@ def build_and_audit(tier: str = "quick") -> dict:
 def run_obligation(name: str) -> tuple[bool, str]:
     """Compile one per-run obligation file lean/Rbacx/Run/<name>.lean on its own."""
     p = sh(["lake", "env", "lean", f"Rbacx/Run/{name}.lean"], cwd=LEAN, timeout=900)
-    return p.returncode == 0, (p.stdout + p.stderr)[-2000:]
+    out = p.stdout + p.stderr
+    # obligations that print the axioms of their theorems are held to the same standard as the library
+    for m in re.finditer(r"'([^']+)' depends on axioms: \[([^\]]*)\]", out.replace("\n ", " ")):
+        used = {x.strip() for x in m.group(2).split(",") if x.strip()}
+        if not used <= ALLOWED_AXIOMS:
+            return False, f"{m.group(1)} depends on axioms {sorted(used - ALLOWED_AXIOMS)}"
+    if p.returncode == 0 and re.search(r"\bsorry\b", out):
+        return False, "obligation file mentions sorry: " + out[-500:]
+    return p.returncode == 0, out[-2000:]
 
 
 # ----------------------------------------------------------------------------- known findings
